@@ -13,11 +13,12 @@ trap 'rm -rf "$WORK"' EXIT
 export TMPDIR=$WORK
 
 build() {
-	sed "s|=> /repo\$|=> $VERIF_REPO|" "$HERE/go.mod" > "$HERE/.build.mod"
-	cp "$HERE/go.sum" "$HERE/.build.sum"
+	# module file and test binary are private to this invocation
+	sed "s|=> /repo\$|=> $VERIF_REPO|" "$HERE/go.mod" > "$WORK/build.mod"
+	cp "$HERE/go.sum" "$WORK/build.sum"
 	# the hook file is added virtually to package deploy (nothing in the repository is touched)
 	printf '{"Replace": {"%s/deploy/zz_export_verif.go": "%s/hooks/deploy_export_verif.go"}}\n' "$VERIF_REPO" "$VERIF" > "$WORK/overlay.json"
-	(cd "$HERE" && $GO test -modfile=.build.mod -tags verif -overlay "$WORK/overlay.json" -vet=off -c -o "$VERIF/bin/deploymc.test" .) || { echo "HARNESS ERROR: build of deploymc failed" >&2; exit 2; }
+	(cd "$HERE" && $GO test -modfile="$WORK/build.mod" -tags verif -overlay "$WORK/overlay.json" -vet=off -c -o "$WORK/deploymc.test" .) || { echo "HARNESS ERROR: build of deploymc failed" >&2; exit 2; }
 }
 
 case "${1:-}" in
@@ -25,7 +26,7 @@ replay)
 	rf=${2:?}
 	build
 	sched=$(python3 -c "import json,sys; print(json.dumps(json.load(open(sys.argv[1]))['case']))" "$rf") || exit 2
-	C13_OUT=$WORK C13_REPLAY="$sched" "$VERIF/bin/deploymc.test" -test.run 'TestC13$' -test.count=1 >"$WORK/log" 2>&1 || { tail -20 "$WORK/log"; exit 2; }
+	C13_OUT=$WORK C13_REPLAY="$sched" "$WORK/deploymc.test" -test.run 'TestC13$' -test.count=1 >"$WORK/log" 2>&1 || { tail -20 "$WORK/log"; exit 2; }
 	python3 - "$WORK/replay.json" "$rf" <<'PY'
 import json,sys
 r=json.load(open(sys.argv[1]))
@@ -43,7 +44,7 @@ C13)
 	build
 	export VERIF_TIER=$tier C13_OUT=$WORK
 	t0=$(date +%s)
-	timeout 5h "$VERIF/bin/deploymc.test" -test.run 'TestC13$|TestC13Helpers$' -test.count=1 -test.timeout 5h >"$WORK/log" 2>&1
+	timeout 5h "$WORK/deploymc.test" -test.run 'TestC13$|TestC13Helpers$' -test.count=1 -test.timeout 5h >"$WORK/log" 2>&1
 	rc=$?
 	if [ ! -s "$WORK/report.json" ] || [ ! -s "$WORK/helpers.json" ]; then
 		echo "HARNESS ERROR: deploymc produced no report (exit $rc)" >&2; tail -30 "$WORK/log" >&2; exit 2
